@@ -209,14 +209,126 @@ fn concrete_calls(rep: &Report, seed: u64) -> u64 {
     n
 }
 
+fn c14_cases(tier: Tier, seed: u64) -> Vec<Case> {
+    let all = all_cases(tier, seed);
+    // one distinct sampler per (family, type, parameters); skip the constant ones
+    let mut seen = std::collections::BTreeSet::new();
+    all.into_iter().filter(|c| seen.insert(format!("{}|{}|{:?}", c.family, c.fty, c.params))).filter(|c| !(c.family == "Dirichlet" && c.params.len() > 8)).collect()
+}
+
+const FIRST_TOUCH_ORDERS: u32 = 4;
+const FIRST_TOUCH_SAMPLES: usize = 96;
+
+fn first_touch_order(order: u32, n: usize) -> Vec<usize> {
+    match order {
+        0 => (0..n).collect(),
+        1 => (0..n).rev().collect(),
+        2 => (0..n).map(|i| (i + n / 2) % n).collect(),
+        // every family's parameter sets from the back, families in forward order (blocks of 8 reversed)
+        _ => (0..n).map(|i| { let b = i / 8 * 8; let e = (b + 8).min(n); b + (e - 1 - i) }).collect(),
+    }
+}
+
+/// Child process of the first-touch sub-check: a fresh process samples every case, single-threaded, in the given
+/// order, and prints one line per case with a hash of the values and cursors. State that lives in the process
+/// (statics initialised by the first caller, lazily built tables) is the same for all histories explored inside one
+/// process; only a different order of first use in a different process makes it visible.
+pub fn child(order: u32, tier: Tier, seed: u64) -> i32 {
+    let cases = c14_cases(tier, seed);
+    let words = base_words(seed ^ 0xC14F, 4096);
+    let deadline = std::time::Instant::now() + std::time::Duration::from_secs(if tier == Tier::Quick { 60 } else { 600 });
+    for i in first_touch_order(order, cases.len()) {
+        let Some(s) = (cases[i].build)() else { continue };
+        let mut rng = ScriptRng::new(&words, 0x5EED);
+        let mut h = 0xcbf29ce484222325u64;
+        let mut mix = |x: u64| { h = (h ^ x).wrapping_mul(0x100000001b3); h = h.rotate_left(29); };
+        let mut done = 0usize;
+        for _ in 0..FIRST_TOUCH_SAMPLES {
+            match run_rng(&*s, &mut rng) {
+                Outcome::Done(v) => { mix(v.bits); mix(rng.pos as u64); }
+                Outcome::Panic(m) => { mix(crate::report::fnv(m.as_bytes())); break; }
+                Outcome::Cap => { mix(0xCA9); break; }
+            }
+            done += 1;
+            if std::time::Instant::now() > deadline { break; }
+        }
+        if std::time::Instant::now() > deadline {
+            // cases not reached in time are simply not compared (stated in the evidence)
+            break;
+        }
+        println!("R {i} {h:016x} {done}");
+    }
+    println!("END");
+    0
+}
+
+/// First-touch sub-check (parent side): run the child in several orders, compare per case.
+fn first_touch(rep: &Report, tier: Tier, seed: u64) -> (u64, u64) {
+    let exe = match std::env::current_exe() { Ok(e) => e, Err(_) => return (0, 0) };
+    let cases = c14_cases(tier, seed);
+    let tdir = format!("{}/.target", crate::report::VERIF_DIR);
+    let _ = std::fs::create_dir_all(&tdir);
+    let mut kids = vec![];
+    for o in 0..FIRST_TOUCH_ORDERS {
+        let path = format!("{tdir}/c14-first-touch-{o}-{}.txt", std::process::id());
+        let f = match std::fs::File::create(&path) { Ok(f) => f, Err(_) => return (0, 0) };
+        let k = std::process::Command::new(&exe).args(["c14-child", &o.to_string(), "--tier", if tier == Tier::Quick { "quick" } else { "thorough" }, "--seed", &seed.to_string()])
+            .stdout(f).stderr(std::process::Stdio::null()).spawn();
+        match k { Ok(k) => kids.push((o, path, k)), Err(_) => return (0, 0) }
+    }
+    let t0 = std::time::Instant::now();
+    let limit = std::time::Duration::from_secs(if tier == Tier::Quick { 90 } else { 900 });
+    let mut tables: Vec<(u32, HashMap<usize, String>, bool)> = vec![];
+    for (o, path, mut k) in kids {
+        loop {
+            match k.try_wait() {
+                Ok(Some(_)) => break,
+                Ok(None) if t0.elapsed() > limit => { let _ = k.kill(); let _ = k.wait(); break; }
+                Ok(None) => std::thread::sleep(std::time::Duration::from_millis(50)),
+                Err(_) => break,
+            }
+        }
+        let txt = std::fs::read_to_string(&path).unwrap_or_default();
+        let _ = std::fs::remove_file(&path);
+        let mut m = HashMap::new();
+        let mut complete = false;
+        for l in txt.lines() {
+            let p: Vec<&str> = l.split_whitespace().collect();
+            if p.len() == 4 && p[0] == "R" { if let Ok(i) = p[1].parse::<usize>() { m.insert(i, format!("{} {}", p[2], p[3])); } }
+            if l == "END" { complete = true; }
+        }
+        tables.push((o, m, complete));
+    }
+    let mut compared = 0u64;
+    let mut complete_orders = 0u64;
+    for t in &tables { if t.2 { complete_orders += 1; } }
+    if let Some((_, base, _)) = tables.first() {
+        for (o, m, _) in tables.iter().skip(1) {
+            for (i, h) in m {
+                if let Some(h0) = base.get(i) {
+                    compared += 1;
+                    if h0 != h {
+                        let label = cases.get(*i).map(|c| c.label.clone()).unwrap_or_default();
+                        rep.violation(format!("{}|first-touch|{}", label.split('<').next().unwrap_or(""), label),
+                            format!("{label}: the first {FIRST_TOUCH_SAMPLES} samples on a fixed stream differ between two fresh processes that sampled the other parameter sets in a different order before it (order 0: {h0}, order {o}: {h}): the result depends on process-wide state set by an earlier caller"),
+                            json!({"case": label, "orders": [0, o], "hash_and_count_order0": h0, "hash_and_count_other": h, "how_to_replay": format!("rdverif c14-child 0 --seed {seed} | grep 'R {i} ' ; rdverif c14-child {o} --seed {seed} | grep 'R {i} '")}));
+                    }
+                }
+            }
+        }
+    }
+    (compared, complete_orders)
+}
+
 pub fn run(tier: Tier, seed: u64) -> i32 {
     let rep = Report::new("C14", "model_checking", if tier == Tier::Quick { "quick" } else { "thorough" }, seed);
     let concrete = concrete_calls(&rep, seed);
     rep.set("concrete_type_method_calls", json!(concrete));
-    let all = all_cases(tier, seed);
-    // one distinct sampler per (family, type, parameters); skip the constant ones
-    let mut seen = std::collections::BTreeSet::new();
-    let cases: Vec<Case> = all.into_iter().filter(|c| seen.insert(format!("{}|{}|{:?}", c.family, c.fty, c.params))).filter(|c| !(c.family == "Dirichlet" && c.params.len() > 8)).collect();
+    let (ft_compared, ft_orders) = first_touch(&rep, tier, seed);
+    rep.set("first_touch_case_comparisons", json!(ft_compared));
+    rep.set("first_touch_orders_completed", json!(ft_orders));
+    rep.set("first_touch_rule", json!("4 fresh processes sample every case (96 samples on one fixed stream, single-threaded) in 4 different orders (forward, reverse, rotated by half, blocks of 8 reversed); per case the hash of values and cursors must agree between orders"));
+    let cases = c14_cases(tier, seed);
     // selection: every case for the thorough tier, a spread covering every family and variant for the quick tier
     let step = if tier == Tier::Quick { 5 } else { 1 };
     let mut sel: Vec<usize> = vec![];
